@@ -16,6 +16,8 @@ CONSTANTS
   PForms <- PfMa
   Containers <- CtList
   OvKVals <- Ov3
+  SForms <- SfList
+  KeySortSeq <- SortId
 INVARIANT PolyAgreesWithFold
 INVARIANT PermutationInvariant
 INVARIANT InactiveNotInExponent
